@@ -70,12 +70,17 @@ impl RefInd for Fisher {
 		} else if (h - l).abs() <= 4.0 * (s.e + U * h.abs()) {
 			// the transform is discontinuous where highest == lowest: with a range inside the rounding of the source any
 			// value of the clamped transform is possible
-			T::new(0.0, 0.999f64.atanh() + 1e-9)
+			T::new(0.0, 0.999f64.atanh() + if cfg!(feature = "value_type_f32") { 1e-3 } else { 1e-9 })
 		} else {
 			let x = T::exact(s.v).sub(T::exact(l)).div(T::exact(h).sub(T::exact(l))).scale(2.0).sub(T::exact(1.0));
-			let xv = x.v.clamp(-0.999, 0.999);
-			// d/dx atanh = 1 / (1 - x^2) <= 501 on the clamped domain
-			T::new(xv.atanh(), (x.e + s.e / (h - l).abs().max(f64::MIN_POSITIVE)) * 501.0 + 8.0 * U * xv.atanh().abs() + 4.0 * U)
+			// the clamp constant is a ValueType literal in the implementation
+			let b = crate::sut::vt(0.999);
+			let xv = x.v.clamp(-b, b);
+			// d/dx atanh = 1 / (1 - x^2) <= 501 on the clamped domain. In double precision the reference calls the very
+			// same library function on the same argument; in single precision it does not, and the library's
+			// `0.5·ln_1p(2x / (1 - x))` loses u / (1 - |x|) next to the clamp
+			let lib = if cfg!(feature = "value_type_f32") { 4.0 * U / (1.0 - xv.abs()) } else { 0.0 };
+			T::new(xv.atanh(), (x.e + s.e / (h - l).abs().max(f64::MIN_POSITIVE)) * 501.0 + 8.0 * U * xv.atanh().abs() + 4.0 * U + lib)
 		};
 		let cum = T::new(self.prev.v * 0.5 + ft.v, self.prev.e * 0.5 + ft.e + 2.0 * U * (self.prev.v.abs() + ft.v.abs()));
 		let rev = cross_i8(&mut self.cross, cum, self.prev);
@@ -398,7 +403,7 @@ impl RefInd for Mfi {
 				T::exact(1.0).sub(T::exact(1.0).div(T::exact(1.0).add(ratio)))
 			}
 		};
-		let (up, lo) = (T::exact(1.0 - self.zone), T::exact(self.zone));
+		let (up, lo) = (T::exact(crate::sut::vt(1.0 - self.zone)), T::exact(self.zone));
 		let a = cross_i8(&mut self.cu, value, up);
 		let b = cross_i8(&mut self.cl, value, lo);
 		let enters = match (a, b) {
@@ -573,7 +578,7 @@ impl RefInd for Rsi {
 				p.div(den)
 			}
 		};
-		let (lo, up_z) = (T::exact(self.zone), T::exact(1.0 - self.zone));
+		let (lo, up_z) = (T::exact(self.zone), T::exact(crate::sut::vt(1.0 - self.zone)));
 		let b = cross_i8(&mut self.cl, value, lo);
 		let a = cross_i8(&mut self.cu, value, up_z);
 		let s0 = match (a, b) {
@@ -678,7 +683,7 @@ impl RefInd for Stoch {
 		let k = if h == l { T::exact(0.5) } else { c[3].sub(T::exact(l)).div(T::exact(h).sub(T::exact(l))) };
 		let f1 = self.ma1.next(k);
 		let f2 = self.ma2.next(f1);
-		let (zl, zu) = (T::exact(self.zone), T::exact(1.0 - self.zone));
+		let (zl, zu) = (T::exact(self.zone), T::exact(crate::sut::vt(1.0 - self.zone)));
 		let (a1, _) = self.a1.step(f1, zl);
 		let (_, u1) = self.u1.step(f1, zu);
 		let (a2, _) = self.a2.step(f2, zl);
@@ -1059,7 +1064,7 @@ pub fn make_refind2(name: &str, cfg: &Value, first: &TC) -> Option<Box<dyn RefIn
 				prev: s0,
 				pos: ref_ma(&k, n, z()),
 				neg: ref_ma(&k, n, z()),
-				cu: RCross::new(T::exact(0.5), T::exact(1.0 - zone)),
+				cu: RCross::new(T::exact(0.5), T::exact(crate::sut::vt(1.0 - zone))),
 				cl: RCross::new(T::exact(0.5), T::exact(zone)),
 				perturbed: false,
 			})
